@@ -42,6 +42,14 @@ Identities == pc = "done" =>
     /\ StoLeDet(law, pt.x)
     /\ HillComplement(law, pt.x)
     /\ \A s \in 1..NS, m \in 0..MaxOrder : FallFactZero(pt.x[s], m)
+\* a reaction's reactants are a multiset: the rate does not depend on the order in which they are written
+\* (A+B+A is 2A+B); the harness builds every law with its reactants written in several of these orders
+WrittenOrders(re) == {w \in [1..Len(re) -> 1..NS] : \A sp \in 1..NS : Count(w, sp) = Count(re, sp)}
+OrderInvariant == (pc = "done" /\ law.type = "massaction") =>
+    \A w \in WrittenOrders(law.re) :
+        LET lw == [law EXCEPT !.re = w] IN
+        /\ Det(lw, pt.x) = pt.det /\ Vol(lw, pt.x, pt.V) = pt.vol
+        /\ Sto(lw, pt.x) = pt.sto /\ StoVol(lw, pt.x, pt.V) = pt.stovol
 NonNegative == pc = "done" => RLe(Zero, pt.det) /\ RLe(Zero, pt.sto) /\ RLe(Zero, pt.vol) /\ RLe(Zero, pt.stovol)
 
 Emit == pc = "done" => PrintT(ToJson([law |-> law, pt |-> pt]))
